@@ -22,7 +22,7 @@ section
 variable {K : Type} [Lean.Grind.Field K] [Lean.Grind.IsCharP K 0] [BEq K] [LawfulBEq K]
   [IsClose K] [LawfulIsClose K]
 
-open Ref
+open Unyt.Temp.Ref
 
 theorem close_eq (a b : K) : IsClose.close a b = (a == b) := by
   by_cases h : a = b
@@ -208,6 +208,14 @@ theorem zero_of_offset_zero (u : TU K) (h : u.offset exactTab = 0) :
     (slope u.base * zero u.base : K) = 0 := by
   rcases u with ⟨p, b⟩
   cases b <;> simp only [TU.offset, exactTab, zero, slope] at h ⊢ <;> grind
+
+/-- the array-level test `u.base_offset and u.dimensions is temperature` on a unit of the family -/
+theorem offsetTemp_toUnitV [RPow K] (u : TU K) :
+    offsetTemp (toUnitV exactTab u) = onOffsetScale u := by
+  have h := hasOffset_exact u
+  simp only [hasOffset] at h
+  simp only [offsetTemp, toUnitV, h, onOffsetScale]
+  simp
 
 end
 end Unyt.Temp
